@@ -768,10 +768,12 @@ func (self *Pipestance) ZipMetadata(zipPath string) error {
 		return err
 	}
 
+	util.VerifPoint("ps:zip:created", zipPath)
 	// Remove all metadata files.
 	for _, filePath := range removePaths {
 		os.Remove(filePath)
 	}
+	util.VerifPoint("ps:zip:files_removed", zipPath)
 
 	// Remove all split, join, chunk metadatas without data files.
 	for _, node := range nodes {
